@@ -52,7 +52,7 @@ BODY_CLASSES = [
     "whitespace_padded", "errors_same_message", "data_empty_object", "data_false", "data_empty_and_empty_errors", "errors_null_probe", "errors_string_probe",
 ]
 QUICK_STATUSES = [200, 201, 204, 299, 100, 199, 300, 301, 304, 400, 401, 404, 429, 500, 502, 503, 599]
-VIAS = ["execute", "get_item", "list_items", "ping", "create_item"]
+VIAS = ["execute", "get_item", "list_items", "ping", "create_item", "search_now"]
 
 
 def setup(tier):
@@ -170,6 +170,8 @@ def simple_call(via, k):
         return {"via": via, "args": {"first": ("int", k), "color": ("unset",)}, "multipart": False, "kw": kw}
     if via == "ping":
         return {"via": via, "args": {}, "multipart": False, "kw": kw}
+    if via == "search_now":
+        return {"via": via, "args": {"query": ("str", "q%d" % k), "variables": ("int", k), "data": ("unset",)}, "multipart": False, "kw": kw}
     if via == "create_item":
         return {"via": via, "args": {"input": ("model", "ItemInput", {"name": ("str", "n%d" % k), "count": ("int", k)}, False)},
                 "multipart": False, "kw": kw}
@@ -214,7 +216,7 @@ def draw_case(case, ch: Choices):
     return cfg
 
 
-RESULT_MODEL = {"get_item": "GetItem", "list_items": "ListItems", "ping": "Ping", "create_item": "CreateItem"}
+RESULT_MODEL = {"get_item": "GetItem", "list_items": "ListItems", "ping": "Ping", "create_item": "CreateItem", "search_now": "SearchNow"}
 
 
 def judge(cfg, recs, server, info, sent, res: RunResult, variant):
